@@ -75,10 +75,71 @@ def run_real(wk):
         s.cleanup()
 
 
+def run_daemon_start(kind):
+    """a daemonised start (--daemon --pid), good or failing after the detach ("bad-class": the worker class cannot be
+    imported, the arbiter never gets as far as writing its pid file); the pid path is polled all along"""
+    import re
+    import threading
+    s = rp.Server("sync" if kind == "good" else "no_such_module_zz.Worker", workers=1, pidfile=True, daemon=True,
+                  args=["--graceful-timeout", "2"], name="c17d")
+    seen = {"reads": 0, "partial": None}
+    stop = threading.Event()
+
+    def poll():
+        while not stop.is_set():
+            try:
+                with open(s.pidfile, "rb") as f:
+                    raw = f.read()
+            except OSError:
+                raw = None
+            seen["reads"] += 1
+            if raw is not None and not re.fullmatch(rb"[0-9]+\n", raw) and seen["partial"] is None:
+                seen["partial"] = raw[:40].decode("latin-1")
+    th = threading.Thread(target=poll, daemon=True)
+    th.start()
+    ev = []
+    try:
+        if kind == "good":
+            s.start()
+            s.wait_booted(1)
+        else:
+            p = subprocess.Popen(s.cmd, cwd=s.cwd, env=s.env, stdout=subprocess.DEVNULL, stderr=subprocess.DEVNULL)
+            p.wait(15)
+            time.sleep(2.5)
+        stop.set()
+        th.join(5)
+        ev.append({"e": "watch", "after": "daemon-start-" + kind, "partial": seen["partial"] is not None})
+        if kind != "good":
+            # one more look once everything has settled
+            try:
+                with open(s.pidfile, "rb") as f:
+                    raw = f.read()
+            except OSError:
+                raw = None
+            ev.append({"e": "watch", "after": "daemon-start-failed", "partial": raw is not None and not re.fullmatch(rb"[0-9]+\n", raw)})
+        else:
+            s.signal(signal.SIGTERM)
+            t0 = time.time()
+            while time.time() - t0 < 8 and rp.proc_state(s.pid) not in (None, "Z"):
+                time.sleep(0.05)
+        return {"wk": "daemon-" + kind, "ev": ev}, {"wk": "daemon-" + kind, "reads": seen["reads"], "partial": seen["partial"],
+                                                    "log": s.errlog()[-300:]}
+    finally:
+        stop.set()
+        if kind != "good":
+            for pid in rp.pids_matching(s.cfgfile):
+                try:
+                    os.kill(pid, signal.SIGKILL)
+                except OSError:
+                    pass
+        s.cleanup()
+
+
 def real_side(ctx):
     from props.reload_real import _parallel
     plan = ["sync", "gthread"] if ctx.quick else ["sync", "gthread", "gevent", "eventlet"]
-    results = _parallel(plan, lambda a, i: run_real(a), par=4)
+    plan += ["@good", "@bad-class"]
+    results = _parallel(plan, lambda a, i: run_daemon_start(a[1:]) if a.startswith("@") else run_real(a), par=6)
     traces = [r[0] for r in results]
     metas = [r[1] for r in results]
     verdicts, stats = tlc.validate_batch("PidfileRealTrace", "PidfileRealTrace.cfg", traces, name="PidfileRealTrace_C17")
